@@ -170,7 +170,7 @@ def random_cases(draw):
 
 def plan(tier, seed):
     nshards = 16
-    examples = 120 if tier == "quick" else 1500
+    examples = 200 if tier == "quick" else 1500
     return [{"engine": "hyp", "examples": examples, "seed": seed * 1000 + i} for i in range(nshards)]
 
 
